@@ -182,6 +182,7 @@ class Follow:
         self.enums = {}        # old enum name -> new enum name
         self.generics = {}     # struct name -> [baseline type parameter names]
         self.notes = []
+        self.cur_enums = {}
 
     def as_dict(self):
         return {'functions': {v: k for k, v in self.canon.items()}, 'fields': self.fields,
@@ -213,6 +214,7 @@ def compute(repo, contract_keys=()):
         fo.notes.append('rename following unavailable: %r' % (e,))
         return fo
 
+    fo.cur_enums = cur.enums
     # ---- enums (before functions: variant names occur in bodies)
     for en, bv in base.enums.items():
         cv = cur.enums.get(en)
